@@ -201,18 +201,18 @@ namespace {
         return rc::gen::mapcat( n_broken, []( int n ) {
             return rc::gen::map(
                 rc::gen::tuple( rc::gen::container< std::vector< int > >( static_cast< std::size_t >( n ), verif::range< int >( 0, A_ASPECTS - 1 ) ), gen_lldata(),
-                    rc::gen::arbitrary< std::uint32_t >(), verif::range< int >( 0, 3 ), rc::gen::weightedElement< int >( { { 6, INIT_PROPER }, { 1, 0 }, { 1, 1 }, { 1, 2 }, { 1, 3 }, { 1, 4 }, { 1, 5 } } ) ),
-                []( const std::tuple< std::vector< int >, std::vector< std::uint8_t >, std::uint32_t, int, int >& t ) {
+                    rc::gen::arbitrary< std::uint64_t >(), verif::range< int >( 0, 3 ), rc::gen::weightedElement< int >( { { 6, INIT_PROPER }, { 1, 0 }, { 1, 1 }, { 1, 2 }, { 1, 3 }, { 1, 4 }, { 1, 5 } } ) ),
+                []( const std::tuple< std::vector< int >, std::vector< std::uint8_t >, std::uint64_t, int, int >& t ) {
                     Op o;
                     o.kind           = O_REQ;
                     o.bytes          = std::get< 1 >( t );
                     o.hbits          = std::get< 3 >( t );
                     o.init           = std::get< 4 >( t );
-                    std::uint32_t rnd = std::get< 2 >( t );
+                    std::uint64_t rnd = std::get< 2 >( t );
                     for ( int a : std::get< 0 >( t ) )
                     {
-                        const unsigned x = rnd & 0xff;
-                        rnd >>= 8;
+                        const unsigned x = static_cast< unsigned >( rnd & 0xffff );
+                        rnd >>= 16;
                         switch ( a )
                         {
                         case A_TYPE: o.type = static_cast< int >( x % 2 ? ( x >> 1 ) % 16 : ( x >> 1 ) % 2 ? 3 : 4 + ( x >> 2 ) % 4 ); break;
